@@ -150,3 +150,13 @@ Theorem C02_checker_warm_caches : forall s, ColdCache.ids_distinct s -> WarmTree
   forall ws, chk_C02 s (api_tree s ws) = 0.
 Proof. exact ChkMoreWarmC02.chk_C02_warm. Qed.
 Print Assumptions C02_checker_warm_caches.
+
+(* ... and in the union class: combined-map leaves AND caches in any warm state in one tree *)
+From RS Require Proofs.WarmCombBounds Proofs.WarmCombC02.
+Theorem C02_checker_combined_leaves_and_warm_caches : forall s ws,
+  ColdCache.ids_distinct s -> Checkers.ChkHist.k2_shape s = false ->
+  CombLeafTree.rshape2 (ColdCache.uncache s) = true -> treeA s = true ->
+  WarmCombBounds.tiny2 (ColdCache.uncache s) = true ->
+  chk_C02 s (api_tree s ws) = 0.
+Proof. exact WarmCombC02.C02_warm_comb_checker. Qed.
+Print Assumptions C02_checker_combined_leaves_and_warm_caches.
